@@ -193,30 +193,54 @@ def run(cx):
         c = w.calls_to(f"{INNER}::add")[0]
         ob.require(is_param(arg_origin(c, 1, wo), "own_peer_id") and is_param(arg_origin(c, 2, wo), "new_connection"),
                    "wrapper/args", "ActivePeers::add does not forward (own_peer_id, new_connection)", w.path)
-        # Endpoint::peer_id -> config.peer_id
-        for fn, tag in (("new_inbound", "Inbound"), ("new_outbound", "Outbound")):
-            nb = cx.body(f"anemo::endpoint::Connecting::{fn}")
-            no = Origins(nb)
-            cc = nb.calls_to("anemo::endpoint::Connecting::new")
-            ob.floor(cc, 1, f"Connecting::new in {fn}", exact=True)
-            t = arg_origin(cc[0], 1, no)
-            ob.require(t[0] == "named" and t[1].endswith(f"ConnectionOrigin::{tag}"), f"{fn}/tag", f"{fn} tags {show(t)}", nb.path)
+        # Every `Connecting` value gets its origin tag where it is built: Inbound in Accept::poll, Outbound in the dial function -
+        # through the constructors Connecting::new_inbound / new_outbound / new, or by a struct literal at those places.
+        for tag in ("Inbound", "Outbound"):
             kb = cx.body(f"anemo::types::peer_id::ConnectionOrigin::{tag}")
-            ko = Origins(kb)
-            kt = ko.of_local(0)
+            kt = Origins(kb).of_local(0)
             ob.require(kt[0] == "agg" and kt[3] and kt[3][0][0] == "agg" and kt[3][0][2].endswith(f"Direction::{tag}"),
                        f"const/{tag}", f"ConnectionOrigin::{tag} = {show(kt)}", kb.path)
-        nb = cx.body("anemo::endpoint::Connecting::new")
-        t = Origins(nb).of_local(0)
-        ob.require(t[0] == "agg" and "origin" in t[4] and is_param(t[3][t[4].index("origin")], "origin"), "Connecting::new/origin",
-                   f"Connecting::new builds {show(t)}", nb.path)
-        # who uses which constructor
-        check_callers(ob, prog, "anemo::endpoint::Connecting::new_inbound", ["<anemo::endpoint::Accept<'_> as core::future::future::Future>::poll"],
-                      exact=1, what="Connecting::new_inbound")
-        check_callers(ob, prog, "anemo::endpoint::Connecting::new_outbound", ["anemo::endpoint::Endpoint::connect_with_client_config"],
-                      exact=1, what="Connecting::new_outbound")
-        check_callers(ob, prog, "anemo::endpoint::Connecting::new", ["anemo::endpoint::Connecting::new_inbound", "anemo::endpoint::Connecting::new_outbound"],
-                      exact=2, what="Connecting::new")
+
+        def tag_of(t):
+            t = strip_identity(t)
+            if t[0] == "named" and "ConnectionOrigin::" in t[1]:
+                return t[1].split("::")[-1]
+            return None
+
+        def users(fn):
+            # (effective owners: a new helper fn that survives as a function value belongs to the functions using it)
+            return sorted({o_ for c in prog.callers_of(fn, crates=["anemo"]) for o_ in owner_paths(prog, c.body)} | {o_ for b_, _ in prog.fn_refs(fn, crates=["anemo"]) for o_ in owner_paths(prog, b_)})
+        built = []          # (where the value is built for, tag)
+        n_agg = 0
+        for p_, b_ in prog.bodies.items():
+            if b_.crate != "anemo":
+                continue
+            bo_ = Origins(b_)
+            for bl in b_.blocks:
+                if bl.get("cleanup"):
+                    continue
+                for st in bl["s"]:
+                    if st["k"] == "assign" and st["rv"]["k"] == "agg" and st["rv"].get("adt") == "anemo::endpoint::Connecting":
+                        n_agg += 1
+                        t = bo_.of_rvalue(st["rv"])
+                        ot = t[3][t[4].index("origin")] if "origin" in t[4] else ("?",)
+                        if tag_of(ot) is not None:
+                            built += [(o_, tag_of(ot)) for o_ in owner_paths(prog, b_)]
+                        elif is_param(ot, "origin") and b_.path == "anemo::endpoint::Connecting::new":
+                            for c in prog.callers_of("anemo::endpoint::Connecting::new", crates=["anemo"]):
+                                tg = tag_of(Origins(c.body).of_operand(c.args[1]))
+                                w_ = owner_path(prog, c.body)
+                                if w_ in ("anemo::endpoint::Connecting::new_inbound", "anemo::endpoint::Connecting::new_outbound"):
+                                    built += [(u_, tg or "?") for u_ in users(w_)]
+                                else:
+                                    built.append((w_, tg or "?"))
+                            ob.require(not prog.fn_refs("anemo::endpoint::Connecting::new", crates=["anemo"]), "Connecting::new/fnref", "Connecting::new used as a function value", b_.path)
+                        else:
+                            built.append((owner_path(prog, b_), "?" + show(ot)[:40]))
+        ob.floor(n_agg, 1, "Connecting aggregates")
+        want_built = sorted([("<anemo::endpoint::Accept<'_> as core::future::future::Future>::poll", "Inbound"), ("anemo::endpoint::Endpoint::connect_with_client_config", "Outbound")])
+        ob.require(sorted(set(built)) == want_built and len(built) == 2, "origin-tags",
+                   f"Connecting values are built / tagged as {sorted(built)}; expected exactly Inbound in Accept::poll and Outbound in the dial function", "anemo::endpoint")
         # Connecting::poll -> Connection::new(connection, self.origin)
         cn = prog.callers_of("anemo::connection::Connection::new", crates=["anemo"])
         ob.floor(cn, 1, "Connection::new call sites", exact=True)
